@@ -35,10 +35,13 @@ import (
 // ---------- part (c): match semantics ----------
 
 var (
-	semNames    = []string{"a", "b", "job", "sev"}
-	semValues   = []string{"", "a", "ab", "abc", "b", "A", "aa", "a\nb", "é", "x.y", "xzy", "ba", "\n", "a\n", "\nb", "ab\n", "a\r", "\r\n", "a\x00b", "b\na"}
+	semNames  = []string{"a", "b", "job", "sev"}
+	semValues = []string{"", "a", "ab", "abc", "b", "A", "aa", "a\nb", "é", "x.y", "xzy", "ba", "\n", "a\n", "\nb", "ab\n", "a\r", "\r\n", "a\x00b", "b\na",
+		"prod", "production", "staging", "pre-staging", "a$", "a$x", "xb", "ax"}
 	semPatterns = []string{"a", "a.*", "a|b", ".*", ".+", "", "[ab]+", "a$", "^a", "(?i)a", "a.b", "é", ".", "x.y", "b|", "a{2}", "(?s)a.b", "a|",
-		".*b", ".*a.*", "a.+", ".+b", "ab.*", ".*ab", "a.*b", "(?s).*", "b.*", ".*a"}
+		".*b", ".*a.*", "a.+", ".+b", "ab.*", ".*ab", "a.*b", "(?s).*", "b.*", ".*a",
+		// user-written anchors: around a top-level alternation, escaped trailing dollar, one side only
+		"^a|b$", "^prod|staging$", "^a\\$", "^a$", "^(a|b)$", "^a|b", "a|b$", "^$", "^.*$", "^a.*|b$", "^a$|^b$"}
 )
 
 func mkLabels(kvs []KV) model.LabelSet {
@@ -75,7 +78,27 @@ func genSemMatcher(r *vh.Rand, ls []KV) M {
 // a newline (or CR / control character / nothing) at every position relative to that literal
 var shapeLits = []string{"a", "ab", "db", "prod", "x-1", "é"}
 
+// anchorAlts / anchorPatterns / anchorValues: regexps in which the user wrote ^ and $ himself, around a top-level
+// alternation p|q (so that the anchors bind to one alternative each), with an escaped trailing dollar, or on one
+// side only; and values that merely start with p / end with q
+var anchorAlts = [][2]string{{"prod", "staging"}, {"a", "b"}, {"db", "x-1"}}
+
+func anchorPatterns(p, q string) []string {
+	return []string{"^" + p + "|" + q + "$", "^" + p + "|" + q, p + "|" + q + "$", "^(" + p + "|" + q + ")$", "^(?:" + p + "|" + q + ")$", "^" + p + "$", "^" + p, q + "$",
+		"^" + p + "\\$", "^" + p + "$|^" + q + "$", "^$", "^.*$", "^" + p + ".*|" + q + "$", "^" + p + "|" + q + "|" + p + q + "$", "^\\^" + p + "$"}
+}
+
+func anchorValues(p, q string) []string {
+	return []string{p, q, p + "uction", p + "x", "pre-" + q, "x" + q, p + q, q + p, p + "$", p + "$x", "", "^" + p, "x" + p + "y", q + "x", p + "\n", "x\n" + q}
+}
+
 func genShapePair(r *vh.Rand) (M, KV) {
+	if r.Chance(1, 3) {
+		alt := vh.Pick(r, anchorAlts)
+		n := vh.Pick(r, semNames)
+		return M{T: vh.Pick(r, []int{2, 2, 3}), N: []byte(n), V: []byte(vh.Pick(r, anchorPatterns(alt[0], alt[1])))},
+			KV{[]byte(n), []byte(vh.Pick(r, anchorValues(alt[0], alt[1])))}
+	}
 	lit := vh.Pick(r, shapeLits)
 	pat := vh.Pick(r, []string{lit, ".*", ".+", lit + ".*", ".*" + lit, ".*" + lit + ".*", lit + ".+", ".+" + lit, ".*" + lit + ".+", lit + ".*" + lit})
 	val := vh.Pick(r, []string{lit, lit + "\n", "\n" + lit, lit + "\nx", "x\n" + lit, "x" + lit + "\ny", "x\n" + lit + "y", lit + "\n" + lit, "", "\n", "\n\n",
@@ -107,6 +130,10 @@ func countShape(run *vh.Run, m M, v string, present bool) {
 	p := string(m.V)
 	isLit := func(x string) bool { return x != "" && regexp.QuoteMeta(x) == x }
 	switch {
+	case strings.HasPrefix(p, "^") && strings.HasSuffix(p, "$") && len(p) > 2:
+		shape = "user-anchored ^...$"
+	case strings.HasPrefix(p, "^") || strings.HasSuffix(p, "$"):
+		shape = "user anchor on one side"
 	case p == ".*" || p == ".+":
 		shape = p
 	case isLit(p):
